@@ -2,33 +2,64 @@
 
 PROP = {'race': True,
  'module': 'GolibsVerif.Theorems.C18',
+ 'modules': ['GolibsVerif.Theorems.C18', 'GolibsVerif.Theorems.C18Fine'],
  'namespace': 'GolibsVerif.C18',
  'rule': 'C18.sh: signal sequences x outcome vectors (nil/error/panic per service) against the real SignalHandler with a fake notifier and '
          'fake services; non-trivial = a shutdown signal reaches a handler with >= 1 service, or non-shutdown signals were delivered.  '
          'C18.rw: event scripts (tick / refresh outcome / Shutdown) against the real RefreshWorker with injected clock, schedule, '
          'refresher, error handler and context constructor, each scenario repeated <reps> times; non-trivial = >= 1 refresh ran on the '
-         'loop goroutine (classes name shutdown-during-refresh, ready-timer-vs-done, final refresh); distinct = distinct case line',
- 'trusted': ["protocol-level model: the Lean transition system makes the loop's decision to refresh and the start of Refresh one step; "
-             'real goroutine interleavings, the Go scheduler, channel/select run-time semantics and the memory model are not exhibited '
-             '(MEM-1)',
-             'the model is tied to the source by (a) synchronisation skeletons regenerated from /repo by gen/syncskel.go on every run and '
-             'compared with the expected ones by `decide` (theorems skel_*), (b) trace comparison on event scripts',
+         'loop goroutine (classes name shutdown-during-refresh, ready-timer-vs-done, final refresh).  '
+         'C18.fine: statement-level scripts against the real RefreshWorker in which EVERY user-supplied callback (Schedule.UntilNext, '
+         'ContextConstructor.New, Refresher.Refresh, ErrorHandler.Handle; the Clock.After channel) blocks until the script releases it, '
+         'so the script fixes the interleaving of the loop goroutine and the goroutine inside Shutdown; the chronological call/return '
+         'trace is compared with the fine-grained Lean system run on the same script; non-trivial = >= 1 scheduled Refresh call '
+         '(classes fine:window = Shutdown ran while the loop was inside contextCons.New, fine:overlap = scheduled refresh in flight when '
+         'the final Refresh starts, fine:ready-timer-vs-done, fine:shutdown-during-refresh, +final); distinct = distinct case line',
+ 'trusted': ['protocol-level models: Model/C18.lean (event-driven; decision-and-start of a refresh is one step) and Model/C18Fine.lean '
+             '(one Go statement / one callback call or return per step, loop goroutine and Shutdown goroutine interleaved arbitrarily); '
+             'the Go scheduler, channel/select run-time semantics and the memory model are assumed, not exhibited (MEM-1): a step of the '
+             'fine model is atomic and `close(done)` is visible to the next select',
+             'the models are tied to the source by (a) synchronisation skeletons regenerated from /repo by gen/syncskel.go on every run and '
+             'compared with the expected ones by `decide` (theorems skel_*), and for the fine model with the order its own step function '
+             'produces (fine_loop_order_matches_skeleton, fine_exits_match_skeleton, fine_shutdown_order_matches_skeleton), (b) trace '
+             'comparison on event scripts (C18.rw) and on statement-level scripts (C18.fine)',
              'the translator gen/syncskel.go (go/ast) and the constants translator (ExitCodeSuccess/ExitCodeFailure)',
              'linux signal numbers SIGINT=2, SIGQUIT=3, SIGTERM=15 (checked by the harness at start)',
-             'harness quiescence detection uses runtime.NumGoroutine to observe that the loop goroutine has exited'],
+             'harness quiescence detection: a goroutine of the worker is known to be blocked in a callback (it notifies), inferred to be '
+             'blocked in the select (Clock.After was just called with an empty channel and Shutdown has not been called), or observed to '
+             'be gone through runtime.NumGoroutine; the harness cannot place a Shutdown between the re-check and the call of '
+             'contextCons.New (no callback there) — that part of the window is exhibited by the model only'],
  'level_text': 'Lean theorems over all outcome vectors, signal sequences, schedules, select resolutions and event histories about '
-               'executable models of SignalHandler.Handle/shutdown/shutdownService and of RefreshWorker.refreshInALoop/refresh/Shutdown; '
-               'tied to the Go code by regenerated synchronisation skeletons (Gen = Expected by decide) and by running the real code with '
-               'real goroutines on the same event scripts and diffing the full call trace',
- 'level_note': 'PARTIAL: proof about a protocol model. Full strength on the model: shutdown_reverse_once, status_success_only_if_all_nil, '
-               'nonshutdown_ignored(+blocks, first_shutdown_signal), refresh_once_per_tick, error_handled_once, '
-               'schedule_consulted_after_each, no_refresh_after_shutdown, select_choice_irrelevant. Not exhibited by the model: goroutine '
-               "scheduling between the loop's re-check of `done` and the start of Refresh (a Shutdown that completes inside that window is "
-               'still followed by one refresh), a refresh already running when Shutdown is called (it may overlap the final refresh: TODO '
-               'in the source), panics of Refresher/ErrorHandler/Schedule, closing of the signal channel, the shutdown timeout. trusted: '
-               'Lean kernel; translators; harness.',
- 'technique': 'Lean 4 theorems about an executable protocol model + regenerated synchronisation skeletons + trace comparison with the real '
-              'code run under an injected clock',
- 'assumptions': ['events are delivered one at a time and the worker is quiescent between them (the harness waits for it); overlapping '
-                 'stimuli are outside the model',
-                 'Shutdown services / Refresher outcomes are nil, error or (services only) panic; UntilNext answers are >= 0']}
+               'executable models of SignalHandler.Handle/shutdown/shutdownService and of RefreshWorker.refreshInALoop/refresh/Shutdown, '
+               'and over ALL interleavings of a statement-level transition system of the RefreshWorker loop goroutine with a concurrent '
+               'Shutdown; tied to the Go code by regenerated synchronisation skeletons (Gen = Expected by decide, and the fine model\'s '
+               'own step order = regenerated skeleton by decide) and by running the real code with real goroutines on the same scripts '
+               'and diffing the full call/return trace',
+ 'level_note': 'PARTIAL: proof about protocol models. Full strength on the coarse model: shutdown_reverse_once, '
+               'status_success_only_if_all_nil, nonshutdown_ignored(+blocks, first_shutdown_signal), refresh_once_per_tick, '
+               'error_handled_once, schedule_consulted_after_each, no_refresh_after_shutdown, select_choice_irrelevant. '
+               'Fine-grained model (Theorems/C18Fine.lean, all interleavings, induction with invariants): NOW EXHIBITED — '
+               'late_refresh_possible (KNOWN FINDING C18-late-refresh-window: a Shutdown that completes after the loop\'s re-check of '
+               '`done` and before Refresh is entered is followed by one scheduled Refresh after Shutdown has returned; reproduced on '
+               'the real code on every run by the C18.fine window scripts, oracle key late-refresh; recorded, not repaired) and '
+               'overlap_possible (a scheduled refresh still running when the final Refresh starts: the TODO in Shutdown); PROVED — '
+               'at_most_one_late_refresh / at_most_one_refresh_after_shutdown (after close(done) at most one scheduled Refresh call, '
+               'only if the loop was inside the window at close; no re-check sees done open; the loop makes <= 11 further events and '
+               'is never stuck: loop_not_stuck_after_close), late_refresh_has_earlier_recheck, recheck_after_close_stops, '
+               'recheck_closed_is_exit, final_refresh_exact, refresh_ctx_fine, refresh_once_per_tick_fine, error_handled_once_fine, '
+               'schedule_consulted_after_each_fine (these three proved directly on the fine system, for every interleaving), '
+               'coarse_embeds_in_fine (every coarse history with <= 1 Shutdown call is one block-sequential execution of the fine '
+               'system with exactly the coarse outputs, so the coarse theorems speak about that sub-class of fine executions). NOT '
+               'proved: the converse refinement (every fine execution without a Shutdown step inside the window projects to a coarse '
+               'execution; needs commutation of independent steps). Still not exhibited: a second Shutdown call in the fine model (coarse model: '
+               'panicClose), panics of Refresher/ErrorHandler/Schedule/ContextConstructor, the deferred cancel of the refresh '
+               'context, closing of the signal channel, the shutdown timeout, weak-memory effects. trusted: Lean kernel; '
+               'translators; harness.',
+ 'technique': 'Lean 4 theorems about executable protocol models (event-driven and statement-level LTS, inductive invariants over all '
+              'interleavings) + regenerated synchronisation skeletons + trace comparison with the real code run under an injected clock '
+              'and blocking callbacks that fix the interleaving',
+ 'assumptions': ['C18.rw: events are delivered one at a time and the worker is quiescent between them (the harness waits for it)',
+                 'C18.fine: one stimulus at a time (a timer delivery, the return of one blocked callback, a Shutdown call); both '
+                 'goroutines run until blocked in a callback, blocked in the select, or gone before the next stimulus',
+                 'Shutdown services / Refresher outcomes are nil, error or (services only) panic; UntilNext answers are >= 0; '
+                 'only the first Shutdown call of a worker is modelled by the fine system']}
